@@ -235,6 +235,14 @@ func (p *Prog) FuncByName(name string) *FuncInfo {
 			return fi
 		}
 	}
+	// a method turned into a plain function of the same name
+	if i := strings.LastIndex(name, ")."); i >= 0 && strings.HasPrefix(name, "(") {
+		for _, fi := range p.funcs {
+			if fi.Name == name[i+2:] && fi.Lit == nil {
+				return fi
+			}
+		}
+	}
 	return nil
 }
 
